@@ -93,6 +93,7 @@ type Exec struct {
 	clock         int
 	exitCode      *int
 	exitExpect    *int
+	allocLimit    int64
 	atExit        Value
 	schedState    *sched
 	floatCalls    []floatCall
@@ -584,6 +585,7 @@ func (x *Exec) runPath(fn *ssa.Function) {
 	x.clock = 0
 	x.exitCode = nil
 	x.exitExpect = nil
+	x.allocLimit = 0
 	x.atExit = nil
 	x.threads = nil
 	x.schedState = nil
@@ -613,7 +615,7 @@ func (x *Exec) runPath(fn *ssa.Function) {
 				}
 			case targetPanic:
 				// uncaught panic of the interpreted program
-				if x.expectPanic() {
+				if x.expectPanic() || (!r.runtime && x.reached["__expect_error_panic__"]) {
 					completed = true
 					return
 				}
